@@ -97,17 +97,7 @@ struct RunLD {
 		if (r == 0 || std::ldexp(r, -sc) != m) ok = false;
 		return neg ? -r : r;
 	}
-	// the source whose conversion shifts by 64 (undefined: finding ub.cfloat.from_long_double.shift64) is left to the
-	// UBSan probe of h_ub.cpp in the sanitizer builds, which abort on the first report
-	static bool skip_ub(long double x) {
-#if defined(__SANITIZE_ADDRESS__)
-		return sub && fbits < 63 && std::isnormal(x) && std::ilogb(x) == minExpSub - 1;
-#else
-		(void)x; return false;
-#endif
-	}
 	static void fromld(long double x) {
-		if (skip_ub(x)) return;
 		C c; c.setbits(0x5a5a5a5a5a5a5a5aull); c = x;
 		std::printf("%s fromld %s => %s\n", hdr, hx(ld2pat(x)), hx(enc(c)));
 	}
@@ -136,7 +126,6 @@ struct RunLD {
 		C c = mk(e);
 		long double r = (long double)c;
 		if (r != r) std::printf("%s told %s => nan\n", hdr, hx(e)); else std::printf("%s told %s => %s\n", hdr, hx(e), hx(ld2pat(r)));
-		if (skip_ub(r)) return;
 		C back; back.setbits(0x5a5a5a5a5a5a5a5aull); back = r;
 		std::printf("%s rtld %s => %s\n", hdr, hx(e), hx(enc(back)));
 	}
